@@ -248,10 +248,28 @@ def classify (cfg : NGF.NginxEval.Config) (s : S) (r : Req) (n0 : NOut) (o : SOu
     | some c, some g => (GatewayAPI.portCands s g r.port).any fun x =>
         x.host == c.host && x.path == c.path && x.exact == c.exact && x.kind != c.kind
     | _, _ => false
+  -- a route that configures no rule (no rules at all, or only rules with unsupported matches) still gets `server` blocks
+  -- for its accepted hostnames (`upsertRoute` creates `rulesPerHost[h]` before it looks at the rules): a request for such
+  -- a hostname that a route with a LESS specific hostname serves is answered 404 by the empty server
+  let rulelessCapture : Bool := match n, w, GatewayAPI.winner s with
+    | .status 404, some c, some g =>
+      (GatewayAPI.validListeners s g).any fun l => l.port == r.port && s.routes.any fun x =>
+        (x.kind == "HTTPRoute" || x.kind == "GRPCRoute") && GatewayAPI.routeAccepted x &&
+        !(x.rules.any (GatewayAPI.ruleMatchesOK x.kind)) &&
+        (GatewayAPI.attachedHosts s g l x).any fun h =>
+          GatewayAPI.covers h r.host && GatewayAPI.specificity h > GatewayAPI.specificity c.host
+    | _, _, _ => false
+  -- httpmatches.js compares a header match value with the comma-separated PIECES of the request header value, so a
+  -- match value that itself contains a comma is never matched — not even by the identical header line
+  let commaHeaderValue : Bool := match w with
+    | some c => (GatewayAPI.dedupHeaders c.headers).any fun h => h.2.contains ','
+    | none => false
   if looseOverlapOnPort s r.port then "C02:https-tls-listener-conflict-on-bare-suffix-overlap"
   else if lostInGrpcInternal then "C02:http-rule-in-server-with-grpc-rule-gets-grpc-internal-location"
   else if internalLeak then "C02:redirect-replace-prefix-in-internal-location-leaks-internal-uri"
   else if slashCase then "C02:prefix-with-trailing-slash-misses-bare-path"
+  else if rulelessCapture then "C02:route-without-configured-rule-captures-its-hostnames"
+  else if commaHeaderValue then "C02:header-match-value-with-comma-never-matches"
   else if viaReading { pathFirst := true } then "C02:no-fallback-to-less-specific-path-when-conditions-fail"
   else if viaReading { pathFirst := true, strictSlash := true } then "C02:no-fallback-to-less-specific-path-when-conditions-fail"
   else if viaReading { strictSlash := true } then "C02:prefix-with-trailing-slash-misses-bare-path"
